@@ -1,4 +1,5 @@
 import Beetswap.Proofs.Codec
+import Beetswap.Generated
 /-!
 # C09 — The 4 MiB message limit is enforced in both directions (inbound part)
 -/
@@ -31,6 +32,16 @@ theorem needMore_bounded (buf : List Nat) (h : decode buf = .needMore) :
 theorem buffer_bounded (chunks : List (List Nat)) (hc : ∀ c ∈ chunks, c.length ≤ 8192) :
     (framedRead chunks).maxBuf ≤ maxMessageSize + 4 + 8192 :=
   Proofs.Codec.buffer_bounded chunks hc
+
+/-- Translator obligations: the limit in the source is the specification's 4 MiB, and the guards
+of `Codec::decode` compare the *decoded length* (not the prefix length) with it, after
+rejecting prefixes that do not re-encode to themselves. -/
+theorem limit_is_spec : Generated.implMaxMessageSize = maxMessageSize := by decide
+
+theorem guards_spec :
+    Generated.implDecodeGuards =
+      ["unsigned_varint::encode::usize(len, &mut varint_buf).len() != varint_len",
+       "len > MAX_MESSAGE_SIZE", "rest.len() < len"] := by decide
 
 /-- Non-vacuity: `81 80 80 02` denotes 4 MiB + 1. -/
 example : CompleteVarint [0x81, 0x80, 0x80, 0x02] ∧ natValue [0x81, 0x80, 0x80, 0x02] > maxMessageSize := by
